@@ -27,6 +27,12 @@ Role_G2 == [a \in AG2 |-> IF a = "g1" THEN "collector" ELSE "committer"]
 Idx_G2 == [a \in AG2 |-> IF a = "c1" THEN 1 ELSE IF a = "c2" THEN 2 ELSE 3]
 Sep_G2 == [a \in AG2 |-> a]
 Prog_G2 == [a \in AG2 |-> IF a = "c1" THEN <<App(1)>> ELSE IF a = "c2" THEN <<App(2)>> ELSE <<GC(10)>>]
+\* two collectors at once (collection takes no lock)
+AGG == {"c1", "g1", "g2"}
+Role_GG == [a \in AGG |-> IF a = "c1" THEN "committer" ELSE "collector"]
+Idx_GG == [a \in AGG |-> IF a = "c1" THEN 1 ELSE IF a = "g1" THEN 2 ELSE 3]
+Sep_GG == [a \in AGG |-> a]
+Prog_GG == [a \in AGG |-> IF a = "c1" THEN <<App(1)>> ELSE <<GC(10)>>]
 Create == [t |-> "create"]
 A1 == {"c1"}
 Role_C1 == [a \in A1 |-> "committer"]
